@@ -48,4 +48,26 @@ def checkHostile (r : String) : Option String :=
   else if r == "ok" || r == "timeout" || pre "err:" r then none
   else some "value_or_script_error"
 
+/-- the alphabetic prefix of a case id names the family the generator drew it from (`scope17` → `scope`). -/
+def tagOf (id : String) : String := String.ofList (id.toList.takeWhile Char.isAlpha)
+
+/-- Clauses that need the language reference's answer for the SAME program (the executable model is that reference):
+    `impl` = what the real evaluator answered, `ref` = what the reference answers (`none`: outside the modelled domain),
+    `refDepth` = the deepest frame nesting the reference reached while evaluating it.
+
+    * `depth_error_only_beyond_limit` — "Stack overflow … Recursion level too deep" may only be raised by a program whose
+      evaluation really nests 300 frames (scriptframe.cpp:82-93): handled exceptions, loops and repeated evaluation must
+      not accumulate depth.
+    * `scoping_use_copies_per_call` — every call of a `use()` closure starts from the values captured at definition and
+      from fresh locals (vmops.hpp:104-110): programs of the `scope` family must give exactly the reference's result.
+    * `operator_typing_array_minus_total` — `array - array` is defined for all element types (elements are compared with
+      `==`): programs of the `arrsub` family for which the reference answers a value never raise. -/
+def checkAgainstReference (id impl : String) (ref : Option String) (refDepth : Nat) : Option String :=
+  if pre "syntax" impl then none                        -- reported by `generated_program_parses`
+  else if impl == "e:stack" && ref.isSome && refDepth < 300 then some "depth_error_only_beyond_limit"
+  else if tagOf id == "arrsub" && (match ref with | some r => pre "v:" r | none => false) && !pre "v:" impl then
+    some "operator_typing_array_minus_total"
+  else if tagOf id == "scope" && ref.isSome && ref != some impl then some "scoping_use_copies_per_call"
+  else none
+
 end Icinga.C15.Spec
